@@ -190,3 +190,91 @@ for _arch, (_f, _tier) in ARCHS.items():
              functions=["submit_burst_and_check (accounting of accepted bursts)"],
              bounded="burst size 0..3; ring position and queue length fully symbolic; slot identity of handed-back jobs abstracted",
              sources=["lib/include/mb_mgr_burst_async.h"], slice="queue size after an accepted burst = before + submitted - handed back"))
+
+
+# ---------------------------------------------------------------- C16
+SLICES["C16"] = ("imb_set_pointers_mb_mgr: every manager pointer = base + fixed offset, 64-aligned, inside the block, pairwise disjoint, table = struct fields; "
+                 "re-attach (reset_mgr=0) writes nothing but pointers/flags/features/errno/road blocks (ring and manager contents survive); reset zeroes the rest")
+ASSUMPTIONS["C16"] = ["variant init functions and CPU detection are other translation units (modelled: log only); that NASM lane state holds no library-image addresses is not decided"]
+add(Unit(name="c16_set_pointers", harness="c16_alloc.c", entry="h_set_pointers", props={"C16": "spec", "C15": "tag", "C14": "tag", "C07": "safety"},
+         dfcc=False, pregen="c16_field_types", unwind=66, timeout=1800, mem_gb=24, remove_bodies=["set_ooo_ptr", "get_ooo_ptr", "set_road_block"], stub_src=["stubs/c16_models.c"],
+         functions=["imb_set_pointers_mb_mgr", "imb_get_mb_mgr_size", "set_ooo_mgr_road_block"],
+         sources=["lib/x86_64/alloc.c"], trusted=["init_mb_mgr_{sse,avx2,avx512}_internal, cpu_feature_detect/adjust modelled", "memset (CBMC model)"],
+         probes=["re-attach path reachable"], slice="all 41 table entries and all pairs (fully unwound), both reset_mgr values"))
+add(Unit(name="c16_set_pointers_frame", harness="c16_alloc.c", entry="h_set_pointers_dfcc", props={"C16": "spec+frame", "C15": "tag", "C07": "safety"},
+         enforce=[("imb_set_pointers_mb_mgr", "contract_imb_set_pointers_mb_mgr")], pregen="c16_field_types", unwind=66, timeout=1800, mem_gb=24,
+         defines=["MODELS_NO_LOG"],
+         remove_bodies=["set_ooo_ptr", "get_ooo_ptr", "set_road_block"], stub_src=["stubs/c16_models.c"],
+         functions=["imb_set_pointers_mb_mgr"], sources=["lib/x86_64/alloc.c"], trusted=["memset (CBMC model)", "helper stores recorded (unit A / helper unit)"],
+         slice="assigns clause: re-attach writes errno/flags/features only (plus the recorded pointer and road-block stores); reset may write the whole block"))
+add(Unit(name="c16_helpers", harness="c16_alloc.c", entry="h_helpers", props={"C16": "spec", "C07": "safety"}, dfcc=False, pregen="c16_field_types",
+         defines=["REAL_HELPERS"], unwind=45, timeout=900, functions=["set_ooo_ptr", "get_ooo_ptr", "set_road_block"], sources=["lib/x86_64/alloc.c"], probes=[],
+         slice="all offsets inside IMB_MGR / a manager, arbitrary watched byte"))
+add(Unit(name="c16_set_pointers_null", harness="c16_alloc.c", entry="h_set_pointers_null", props={"C12": "tag", "C16": "safety"},
+         dfcc=False, pregen="c16_field_types", unwind=45, timeout=300, functions=["imb_set_pointers_mb_mgr"], sources=["lib/x86_64/alloc.c"], probes=[]))
+
+
+# ---------------------------------------------------------------- C08
+SLICES["C08"] = ("variant selection: a variant's init runs only if its CPU-flag set is within adjust(flags, cpuid), the widest satisfiable variant is chosen, "
+                 "SHANI_OFF/GFNI_OFF honoured, missing base flags or NULL manager => clean error with nothing initialised and no kernel executed; "
+                 "for all 2^64 feature words and all flag words")
+ASSUMPTIONS["C08"] = ["bit-identical outputs across NASM variants are not decidable by C contracts",
+                      "cpu_feature_detect() (cpuid, assembly) modelled as one fixed arbitrary 64-bit word"]
+for _e, _p in (("h_init_sse", None), ("h_init_avx2", None), ("h_init_avx512", None), ("h_init_internal", "avx2 type-2 reachable"), ("h_init_auto", "auto picks AVX2")):
+    add(Unit(name="c08_" + _e[2:], harness="c08_init.c", entry=_e, props={"C08": "spec", "C12": "tag", "C14": "tag", "C15": "tag", "C16": "tag", "C20": "tag"},
+             dfcc=False, remove_bodies=["cpu_feature_detect"], stub_src=["stubs/c08_cpu.c"], unwind=3, timeout=600,
+             checks=("--no-standard-checks",), probes=([_p] if _p else []),
+             functions=["init_mb_mgr_sse", "init_mb_mgr_sse_internal", "init_mb_mgr_avx2", "init_mb_mgr_avx2_internal", "init_mb_mgr_avx512",
+                        "init_mb_mgr_avx512_internal", "init_mb_mgr_auto", "cpu_feature_adjust"],
+             sources=["lib/sse_t1/mb_mgr_sse.c", "lib/avx2_t1/mb_mgr_avx2.c", "lib/avx512_t1/mb_mgr_avx512.c", "lib/x86_64/mb_mgr_auto.c", "lib/x86_64/cpu_feature.c"],
+             trusted=["per-variant init_mb_mgr_<v>_internal and self_test modelled by their preconditions", "cpu_feature_detect modelled"],
+             slice="all feature words x flag words"))
+
+
+# ---------------------------------------------------------------- C20
+SLICES["C20"] = ("gating logic of the self-test: result / IMB_FEATURE_SELF_TEST[_PASS] / IMB_ERR_SELFTEST / callback stream are exactly the conjunction of the per-vector "
+                 "verdicts, every vector run once in order; init reports IMB_ERR_SELFTEST iff the self-test failed (c08 units)")
+ASSUMPTIONS["C20"] = ["that corrupting a kernel changes its KAT output is a fact about the NASM kernels",
+                      "per-vector KAT functions modelled by an arbitrary verdict in the gating unit"]
+add(Unit(name="c20_gating", harness="c20_selftest.c", entry="h_self_test", props={"C20": "spec"}, dfcc=False,
+         replace_calls=[("self_test_cipher", "model_self_test_cipher"), ("self_test_hash", "model_self_test_hash"),
+                        ("self_test_aead_gcm", "model_self_test_aead_gcm"), ("self_test_aead_ccm", "model_self_test_aead_ccm")],
+         checks=("--no-standard-checks",), unwind=70, timeout=900, probes=["failing only late vectors"],
+         functions=["self_test", "self_test_exec", "self_test_ciphers", "self_test_hashes", "self_test_aead", "make_callback"],
+         sources=["lib/x86_64/self_test.c"], trusted=["per-vector KAT functions replaced by verdict models", "strcmp (CBMC model)"],
+         slice="all verdict assignments to all vectors, callback present or absent"))
+
+
+_VFLAGS = {"sse_t1": "IMB_CPUFLAGS_SSE", "sse_t2": "IMB_CPUFLAGS_SSE_T2", "sse_t3": "IMB_CPUFLAGS_SSE_T3", "avx2_t1": "IMB_CPUFLAGS_AVX2",
+           "avx2_t2": "IMB_CPUFLAGS_AVX2_T2", "avx2_t3": "IMB_CPUFLAGS_AVX2_T3", "avx2_t4": "IMB_CPUFLAGS_AVX2_T4",
+           "avx512_t1": "IMB_CPUFLAGS_AVX512", "avx512_t2": "IMB_CPUFLAGS_AVX512_T2"}
+for _arch, (_f, _tier) in ARCHS.items():
+    add(Unit(name="c15_init_%s" % _arch, harness="c15_init.c", entry="h_init_variant", props={"C15": "tag", "C16": "tag"},
+             dfcc=False, add_library=False, defines=['UNIT_FILE="%s"' % _f, "VARIANT_FLAGS=" + _VFLAGS[_arch], "VARIANT_INIT=init_mb_mgr_%s_internal" % _arch],
+             checks=("--no-standard-checks",), unwind=3, timeout=900, tier=_tier, probes=["flush_burst handler byte"],
+             functions=["init_mb_mgr_%s_internal" % _arch], sources=["lib/" + _f],
+             trusted=["ooo_mgr_*_reset calls not modelled here (C15 reset units)"], slice="arbitrary handler byte, both reset values, all prior contents"))
+
+
+# ---------------------------------------------------------------- C02 (SHA framing)
+SLICES["C02"] = ("SHA-1/224/256/384/512 one-shot wrappers of every variant (sha_generic): FIPS 180-4 padding, length field, block count, initial hash value, "
+                 "big-endian truncated digest, over an uninterpreted compression function")
+ASSUMPTIONS["C02"] = ["compression functions (NASM) are uninterpreted; HMAC/CMAC/XCBC/ZUC/SNOW3G/KASUMI/Poly1305/CRC kernels are assembly",
+                      "message length bounded to 2*block+17 bytes in these units (labelled bounded)"]
+_SHA_FILES = [("sse_t1/sha_sse.c", "sse", [1, 224, 256, 384, 512], "quick"), ("avx2_t1/sha_avx2.c", "avx2", [1, 224, 256, 384, 512], "quick"),
+              ("avx512_t1/sha_avx512.c", "avx512", [1, 224, 256, 384, 512], "quick"), ("sse_t2/sha_ni_sse.c", "sse_shani", [1, 224, 256], "quick"),
+              ("avx2_t4/sha_ni_avx2.c", "ni_avx2", [384, 512], "thorough")]
+for _f, _sfx, _types, _tier in _SHA_FILES:
+    for _t in _types:
+        _defs = ['SHA_FILE="%s"' % _f, "SFX=" + _sfx] + ([] if len(_types) == 5 else ["ONLY_TYPES", "HAVE_%d" % _t])
+        add(Unit(name="c02_sha%d_%s" % (_t, _sfx), harness="c02_sha.c", entry="h_sha%d" % _t,
+                 props={"C02": "tag", "C06": "tag", "C07": "tag", "C13": "tag", "C14": "tag", "C08": "tag"}, dfcc=False,
+                 defines=_defs + (["SMX_NI"] if "avx2_t4" in _f else []), unwind=140, timeout=900, tier=_tier, probes=["just overflows"],
+                 functions=["sha%d_%s" % (_t, _sfx), "sha_generic", "sha_generic_init", "sha_generic_write_digest", "sha_generic_one_block"],
+                 sources=["lib/" + _f, "lib/include/sha_generic.h"], trusted=["one-block compression kernels (NASM) uninterpreted", "force_memset_zero modelled as memset"],
+                 bounded="message length 0..2*block+17 bytes (all contents, all residues incl. 55/56/64 and 111/112/128)",
+                 slice="FIPS 180-4 framing of sha%d on %s" % (_t, _sfx)))
+    if len(_types) == 5:
+        add(Unit(name="c02_sha_null_%s" % _sfx, harness="c02_sha.c", entry="h_sha_null", props={"C12": "tag"}, dfcc=False,
+                 defines=['SHA_FILE="%s"' % _f, "SFX=" + _sfx], unwind=140, timeout=600, tier=_tier, probes=[],
+                 functions=["sha*_%s NULL checks" % _sfx], sources=["lib/" + _f, "lib/include/sha_generic.h"]))
